@@ -301,6 +301,9 @@ def int_method(ip, st, fr, t, args):
         if m_ is not None and m_ > 0 and (m_ & (m_ - 1)) == 0 and (not signed or m_ < (1 << (len(x) - 1))):
             k_ = m_.bit_length() - 1
             return Int(tuple(x[:k_]) + (0,) * (len(x) - k_))
+    if name == "saturating_add" and not signed:
+        s_, c_ = bv.add_c(x, y)
+        return Int(bv.ite(c_[-1], bv.const((1 << len(x)) - 1, len(x)), s_))
     if name in ("saturating_sub",):
         s, br = bv.sub_c(x, y)
         if not signed:
